@@ -40,6 +40,7 @@ type eCase struct {
 	Parsers map[int]string `json:"parsers,omitempty"` // number | strhash | numrange (default holder FieldParser)
 	Docs    []eDoc         `json:"docs"`
 	Queries []eQuery       `json:"queries"`
+	Batch   int            `json:"batch,omitempty"` // > 1: documents are handed to AddDocument in groups of up to Batch
 }
 
 func fieldName(f int) be.BEField { return be.BEField(fmt.Sprintf("f%d", f)) }
@@ -323,21 +324,49 @@ func execE2E(raw json.RawMessage) (res execResult, err error) {
 	obs := &e2eObs{}
 	b := newBuilder(&c)
 	var docLits []string
-	for i := range c.Docs {
-		d := &c.Docs[i]
+	addOne := func(bb *be.IndexerBuilder, docs ...*be.Document) string {
 		var aerr error
-		p := safeCall(func() { aerr = b.AddDocument(d.build()) })
-		out := "IAddOk"
+		p := safeCall(func() { aerr = bb.AddDocument(docs...) })
 		switch {
 		case p:
-			out = "IAddPanic"
+			return "IAddPanic"
 		case aerr != nil:
-			out = "IAddErr"
-		default:
+			return "IAddErr"
+		}
+		return "IAddOk"
+	}
+	outs := make([]string, len(c.Docs))
+	if c.Batch > 1 {
+		// AddDocument(docs...) stops at the first document it refuses: classify every document on a scratch builder
+		// first, then hand the real builder groups that end at (and include) the first refused document
+		scratch := newBuilder(&c)
+		for i := range c.Docs {
+			outs[i] = addOne(scratch, c.Docs[i].build())
+		}
+		for i := 0; i < len(c.Docs); {
+			j := i
+			var group []*be.Document
+			for j < len(c.Docs) && len(group) < c.Batch {
+				group = append(group, c.Docs[j].build())
+				j++
+				if outs[j-1] != "IAddOk" {
+					break
+				}
+			}
+			outs[j-1] = addOne(b, group...) // the group's answer is the answer for its last document
+			i = j
+		}
+	} else {
+		for i := range c.Docs {
+			outs[i] = addOne(b, c.Docs[i].build())
+		}
+	}
+	for i := range c.Docs {
+		if outs[i] == "IAddOk" {
 			obs.NDocsOK++
 		}
-		obs.Adds = append(obs.Adds, strings.TrimPrefix(out, "IAdd"))
-		docLits = append(docLits, fmt.Sprintf("(%s, %s)", d.coq(), out))
+		obs.Adds = append(obs.Adds, strings.TrimPrefix(outs[i], "IAdd"))
+		docLits = append(docLits, fmt.Sprintf("(%s, %s)", c.Docs[i].coq(), outs[i]))
 	}
 	index := b.BuildIndex()
 	state := "None"
